@@ -37,7 +37,8 @@ def run(ctx, report):
                               webvtt_arithmetic, ctx, report, folder)
     report.section("verbatim cue settings", verbatim, ctx, report, folder)
     report.section("fallback order", fallback, ctx, report)
-    report.section("default before use", default_before_use, ctx, report)
+    report.structural_section("default before use (shape)", "the lang option of WebVTTWriter.write folded on a recording caption set for every "
+                              "value (C14 webvtt_lang) and the whole-document WebVTT scenarios", default_before_use, ctx, report)
     report.section("WebVTT option guards", webvtt_option_guards, ctx, report)
     report.section("keys and splitting", keys_and_split, ctx, report)
     from . import webvtt_layout_fold, markup_writer_fold
